@@ -16,7 +16,8 @@ static int process_block(void *userptr, void *workitem)
 	if (block->size == 0)
 		return 0;
 
-	if (!(block->flags & SQFS_BLK_IGNORE_SPARSE) &&
+	if (!(block->flags & (SQFS_BLK_IGNORE_SPARSE |
+			      SQFS_BLK_FRAGMENT_BLOCK)) &&
 	    is_memory_zero(block->data, block->size)) {
 		block->flags |= SQFS_BLK_IS_SPARSE;
 		return 0;
